@@ -142,6 +142,53 @@ OutwardInv == Complete => \A pos \in Positions : MOut(1, <<>>, <<>>, pos, <<>>) 
 TruthInv == \A i \in 1..Len(nodes) : IF nodes[i].k = "r" THEN Ch0(nodes[i].brace) = "{" /\ (nodes[i].cb # -1 => Ch0(nodes[i].cb) = "}")
                                      ELSE Ch0(nodes[i].colon) = ":" /\ Ch0(nodes[i].semi) = ";" /\ nodes[i].e = nodes[i].semi + 1
 
+(* ------------------------------------------- editor action helpers (C17) *)
+SelEnd(i) == LET ev == CHOOSE e \in {evs[j] : j \in 1..Len(evs)} : e.t = "selector" /\ e.s = nodes[i].s IN ev.e      \* end of the selector text
+SectionAt(pos) == LET R == {i \in 1..Len(nodes) : nodes[i].k = "r" /\ nodes[i].s <= pos /\ pos <= nodes[i].e} IN
+                  IF R = {} THEN 0 ELSE FirstByEnd(R)
+\* pieces of a value separated by blanks, outside quotes and parentheses
+RECURSIVE VTok(_, _, _, _, _, _)
+VTok(a, b, start, q, par, acc) ==
+    IF a >= b THEN (IF start = -1 THEN acc ELSE Append(acc, <<start, b>>))
+    ELSE LET c == Ch0(a) IN
+         IF q # "" THEN VTok(a + 1, b, start, IF c = q THEN "" ELSE q, par, acc)
+         ELSE IF c \in {"\"", "'"} THEN VTok(a + 1, b, IF start = -1 THEN a ELSE start, c, par, acc)
+         ELSE IF c = "(" THEN VTok(a + 1, b, IF start = -1 THEN a ELSE start, q, par + 1, acc)
+         ELSE IF c = ")" THEN VTok(a + 1, b, IF start = -1 THEN a ELSE start, q, par - 1, acc)
+         ELSE IF IsSpace(c) /\ par = 0 THEN VTok(a + 1, b, -1, q, par, IF start = -1 THEN acc ELSE Append(acc, <<start, a>>))
+         ELSE VTok(a + 1, b, IF start = -1 THEN a ELSE start, q, par, acc)
+ValueTokens(i) == VTok(nodes[i].vs, nodes[i].ve, -1, "", 0, <<>>)
+KidsOf(r) == SelectSeq([j \in 1..Len(nodes) |-> j], LAMBDA j : nodes[j].parent = r)
+RECURSIVE PropsOf(_, _, _, _)
+PropsOf(ks, j, before, acc) ==
+    IF j > Len(ks) THEN acc
+    ELSE LET n == nodes[ks[j]] IN
+         IF n.k = "r" THEN PropsOf(ks, j + 1, n.e, acc)
+         ELSE PropsOf(ks, j + 1, n.e, Append(acc, [name |-> <<n.s, n.ne>>, value |-> <<n.vs, n.ve>>, tokens |-> ValueTokens(ks[j]),
+                                                    before |-> before, after |-> n.e]))
+Props(r) == PropsOf(KidsOf(r), 1, nodes[r].brace + 1, <<>>)
+RECURSIVE PushAllC(_, _)
+PushAllC(acc, rs) == IF rs = <<>> THEN acc ELSE PushAllC(Push(acc, Head(rs)), Tail(rs))
+ItemRanges(i) == IF nodes[i].k = "r" THEN << <<nodes[i].s, SelEnd(i)>> >>
+                 ELSE PushAllC(Push(Push(<<>>, <<nodes[i].s, nodes[i].e>>), <<nodes[i].vs, nodes[i].ve>>), ValueTokens(i))
+ItemSpan(i) == IF nodes[i].k = "r" THEN <<nodes[i].s, SelEnd(i)>> ELSE <<nodes[i].s, nodes[i].e>>
+NextItem(pos) == LET S == {i \in 1..Len(nodes) : nodes[i].s >= pos} IN IF S = {} THEN 0 ELSE CHOOSE i \in S : \A j \in S : i <= j
+PrevItem(pos) == LET S == {i \in 1..Len(nodes) : nodes[i].s < pos} IN IF S = {} THEN 0 ELSE CHOOSE i \in S : \A j \in S : j <= i
+\* next is not asserted strictly inside a declaration head (after the name start, up to the value start)
+NextSilent(pos) == \E i \in 1..Len(nodes) : nodes[i].k = "d" /\ nodes[i].s < pos /\ pos <= nodes[i].vs
+ItemInv == \A i \in 1..Len(nodes) : LET rs == ItemRanges(i) IN
+              \A k \in 1..Len(rs) : rs[k][1] < rs[k][2] /\ ItemSpan(i)[1] <= rs[k][1] /\ rs[k][2] <= ItemSpan(i)[2] /\ (k > 1 => rs[k] # rs[k - 1])
+PropsInv == \A r \in 1..Len(nodes) : (nodes[r].k = "r" /\ nodes[r].e # -1) =>
+               LET ps == Props(r) IN \A k \in 1..Len(ps) :
+                  /\ nodes[r].brace < ps[k].before /\ ps[k].before <= ps[k].name[1] /\ ps[k].name[2] <= ps[k].value[1]
+                  /\ ps[k].value[2] <= ps[k].after /\ ps[k].after <= nodes[r].cb
+                  /\ (k > 1 => ps[k - 1].after <= ps[k].before)
+DumpActions == Complete => PrintT(<<"VEC", ToJson([doc |-> doc, f16 |-> hasF16,
+          rules |-> [i \in 1..Len(nodes) |-> IF nodes[i].k = "r" THEN [s |-> nodes[i].s, e |-> nodes[i].e, bs |-> nodes[i].brace + 1, be |-> nodes[i].cb, props |-> Props(i)]
+                                              ELSE [s |-> -1, e |-> -1, bs |-> -1, be |-> -1, props |-> <<>>]],
+          items |-> [i \in 1..Len(nodes) |-> [span |-> ItemSpan(i), ranges |-> ItemRanges(i)]],
+          at |-> [p \in 1..(Len(doc) + 1) |-> [sec |-> SectionAt(p - 1), n |-> NextItem(p - 1), p |-> PrevItem(p - 1), ns |-> NextSilent(p - 1)]]])>>)
+
 Dump == Complete => PrintT(<<"VEC", ToJson([doc |-> doc, f16 |-> hasF16, evs |-> evs, nodes |-> nodes,
           at |-> [p \in 1..(Len(doc) + 1) |-> [m |-> CMatch(p - 1), o |-> COutward(p - 1), i |-> CInward(p - 1), isilent |-> InwardSilent(p - 1)]]])>>)
 =============================================================================
